@@ -99,6 +99,14 @@ def evaluate_pair(spec):
     for i, p in enumerate(pkts):
         t += u * max(1 + steps[i % len(steps)], 250 if tight else -(-Fraction(2, 1_000_000) // u))
         p.ts = t
+    if spec.get("anchor") and not k and pkts:
+        # the whole capture is shifted so that packet j is captured d nanoseconds before a full second (tick counts of nanosecond
+        # captures exceed 2^53: the last ~128 ns of a second are where a float conversion rounds up to the next second)
+        j, d = spec["anchor"]
+        pj = pkts[j % len(pkts)]
+        shift = (pj.ts.__ceil__() - Fraction(d, 10 ** 9)) - pj.ts
+        for p in pkts:
+            p.ts += shift
     b.pkts = pkts
     wd = engine.workdir()
     conts = [{"fmt": "pcap", "endian": spec["endians"][0], "nano": True},
@@ -121,7 +129,8 @@ def evaluate_pair(spec):
             detail = f"container {conts[ci]} vs nanosecond pcap: packet {d}: {outs[ci][d][0] if d is not None else '-'} vs {outs[0][d][0] if d is not None else '-'}"
             break
     half = any((Fraction(p.ts) * 1_000_000) % 1 >= Fraction(1, 2) for p in pkts)
-    return {"sig": sig, "detail": detail, "nontrivial": bool(outs[0]) and half, "labels": ["pair", "bin:%d" % k, "half-us" if half else "below-half", "tight-spacing" if tight else "spacing>=2us"], "evals": len(conts)}
+    return {"sig": sig, "detail": detail, "nontrivial": bool(outs[0]) and half, "labels": ["pair", "bin:%d" % k, "half-us" if half else "below-half", "tight-spacing" if tight else "spacing>=2us",
+                                                                                  "end-of-second" if spec.get("anchor") and not k else "anywhere-in-the-second"], "evals": len(conts)}
 
 
 @st.composite
@@ -134,6 +143,7 @@ def pair_spec(draw):
     sc["offset_first"] = draw(st.booleans())
     sc["extra"] = [[draw(st.integers(0, 30)), draw(st.sampled_from([4, 5, 0x00000BAD])), 4 * draw(st.integers(0, 10))] for _ in range(draw(st.integers(0, 2)))]
     sc["tsteps"] = draw(st.lists(st.one_of(st.integers(0, 999), st.integers(0, 5_000_000)), min_size=1, max_size=8))
+    sc["anchor"] = draw(st.one_of(st.none(), st.none(), st.tuples(st.integers(0, 40), st.sampled_from([1, 2, 50, 100, 127, 128, 129, 200, 255, 256, 511, 999])).map(list)))
     sc["tight"] = draw(st.booleans())
     if sc["tight"]:
         sc["tsteps"] = draw(st.lists(st.integers(0, 700), min_size=1, max_size=8))
